@@ -25,6 +25,7 @@ type Summaries struct {
 	// Pure: in-repo functions that write nothing and call only pure code (two calls with equal arguments agree)
 	Pure  map[*types.Func]bool
 	reach map[string]map[string]bool
+	curFresh map[types.Object]bool
 }
 
 func sigKey(t types.Type) string {
@@ -124,6 +125,20 @@ func BuildSummaries(p *load.Prog) *Summaries {
 		info := fi.Pkg.TypesInfo
 		s.scan(info, fi.Decl.Body, mod, read, func(f *types.Func) { calls[fi.Obj] = append(calls[fi.Obj], f) },
 			func(sig string) { dynCalls[fi.Obj] = append(dynCalls[fi.Obj], sig) })
+		// DeepCopy()/DeepCopyObject(): allocate a fresh object and fill it through DeepCopyInto; the writes go
+		// to the fresh object only. Accepted when the body itself writes nothing visible and calls nothing
+		// but DeepCopyInto/DeepCopy (shape of the generated code).
+		if (fi.Obj.Name() == "DeepCopy" || fi.Obj.Name() == "DeepCopyObject") && fi.Decl.Type.Params.NumFields() == 0 && len(mod) == 0 && len(dynCalls[fi.Obj]) == 0 {
+			only := true
+			for _, g := range calls[fi.Obj] {
+				if g.Name() != "DeepCopyInto" && g.Name() != "DeepCopy" {
+					only = false
+				}
+			}
+			if only {
+				calls[fi.Obj] = nil
+			}
+		}
 		// function literals, separately, by signature
 		ast.Inspect(fi.Decl.Body, func(n ast.Node) bool {
 			if lit, ok := n.(*ast.FuncLit); ok {
@@ -409,17 +424,130 @@ func WriteTargets(info *types.Info, lhs ast.Expr, out map[string]bool) {
 	}
 }
 
+// freshLocals lists local variables that only ever hold storage allocated in
+// this body (composite literals, new, make, DeepCopy results): writes through
+// them are invisible to callers.
+func freshLocals(info *types.Info, body ast.Node) map[types.Object]bool {
+	cand := map[types.Object]bool{}
+	bad := map[types.Object]bool{}
+	isFresh := func(e ast.Expr) bool {
+		e = ast.Unparen(e)
+		switch x := e.(type) {
+		case *ast.CompositeLit:
+			return true
+		case *ast.UnaryExpr:
+			if x.Op == token.AND {
+				_, ok := ast.Unparen(x.X).(*ast.CompositeLit)
+				return ok
+			}
+		case *ast.CallExpr:
+			if id, ok := ast.Unparen(x.Fun).(*ast.Ident); ok {
+				if b, ok := info.ObjectOf(id).(*types.Builtin); ok {
+					return b.Name() == "new" || b.Name() == "make"
+				}
+			}
+			if sel, ok := ast.Unparen(x.Fun).(*ast.SelectorExpr); ok && sel.Sel.Name == "DeepCopy" && len(x.Args) == 0 {
+				return true
+			}
+		}
+		return false
+	}
+	ast.Inspect(body, func(n ast.Node) bool {
+		switch x := n.(type) {
+		case *ast.AssignStmt:
+			for i, l := range x.Lhs {
+				id, ok := l.(*ast.Ident)
+				if !ok {
+					continue
+				}
+				obj := info.ObjectOf(id)
+				if obj == nil {
+					continue
+				}
+				if len(x.Lhs) == len(x.Rhs) && isFresh(x.Rhs[i]) && (x.Tok == token.DEFINE && info.Defs[id] != nil || cand[obj]) {
+					cand[obj] = true
+				} else {
+					bad[obj] = true
+				}
+			}
+		case *ast.ValueSpec:
+			for i, id := range x.Names {
+				obj := info.ObjectOf(id)
+				if obj == nil {
+					continue
+				}
+				if len(x.Values) == len(x.Names) && isFresh(x.Values[i]) {
+					cand[obj] = true
+				} else {
+					bad[obj] = true
+				}
+			}
+		case *ast.RangeStmt:
+			for _, e := range []ast.Expr{x.Key, x.Value} {
+				if id, ok := e.(*ast.Ident); ok && id != nil {
+					if obj := info.ObjectOf(id); obj != nil {
+						bad[obj] = true
+					}
+				}
+			}
+		}
+		return true
+	})
+	for o := range bad {
+		delete(cand, o)
+	}
+	return cand
+}
+
+func rootObj(info *types.Info, e ast.Expr) types.Object {
+	for {
+		switch x := ast.Unparen(e).(type) {
+		case *ast.Ident:
+			return info.ObjectOf(x)
+		case *ast.SelectorExpr:
+			if _, ok := info.Selections[x]; !ok {
+				return nil
+			}
+			e = x.X
+		case *ast.IndexExpr:
+			e = x.X
+		case *ast.StarExpr:
+			e = x.X
+		case *ast.UnaryExpr:
+			if x.Op != token.AND {
+				return nil
+			}
+			e = x.X
+		default:
+			return nil
+		}
+	}
+}
+
 func (s *Summaries) scan(info *types.Info, body ast.Node, mod, read map[string]bool, onCall func(*types.Func), onDyn func(string)) {
 	if body == nil {
 		return
+	}
+	fresh := freshLocals(info, body)
+	s.curFresh = fresh
+	defer func() { s.curFresh = nil }()
+	isLocalFresh := func(e ast.Expr) bool {
+		o := rootObj(info, e)
+		return o != nil && fresh[o]
 	}
 	ast.Inspect(body, func(n ast.Node) bool {
 		switch x := n.(type) {
 		case *ast.AssignStmt:
 			for _, l := range x.Lhs {
+				if _, isID := ast.Unparen(l).(*ast.Ident); !isID && isLocalFresh(l) {
+					continue
+				}
 				WriteTargets(info, l, mod)
 			}
 		case *ast.IncDecStmt:
+			if _, isID := ast.Unparen(x.X).(*ast.Ident); !isID && isLocalFresh(x.X) {
+				return true
+			}
 			WriteTargets(info, x.X, mod)
 		case *ast.RangeStmt:
 			if x.Tok == token.ASSIGN {
@@ -481,6 +609,11 @@ func (s *Summaries) ExternalWrites(info *types.Info, call *ast.CallExpr) map[str
 	out := map[string]bool{}
 	ptrTarget := func(e ast.Expr) {
 		e = ast.Unparen(e)
+		if s.curFresh != nil {
+			if o := rootObj(info, e); o != nil && s.curFresh[o] {
+				return
+			}
+		}
 		if u, ok := e.(*ast.UnaryExpr); ok && u.Op == token.AND {
 			WriteTargets(info, u.X, out)
 			t := info.TypeOf(u.X)
